@@ -48,9 +48,9 @@ def plan(tier):
         return ([{"part": "hist", "n": 110, "i": i} for i in range(10)] +
                 [{"part": "prekey", "n": 60, "i": i} for i in range(3)] +
                 [{"part": "flips", "n": 3, "i": i} for i in range(3)])
-    return ([{"part": "hist", "n": 1500, "i": i} for i in range(9)] +
-            [{"part": "prekey", "n": 1500, "i": i} for i in range(3)] +
-            [{"part": "flips", "n": 40, "i": i} for i in range(3)] +
+    return ([{"part": "hist", "n": 6000, "i": i} for i in range(9)] +
+            [{"part": "prekey", "n": 6000, "i": i} for i in range(3)] +
+            [{"part": "flips", "n": 120, "i": i} for i in range(3)] +
             [{"part": "table", "state": s} for s in ("connected", "temp")])
 
 
